@@ -65,6 +65,34 @@ class CallMixin:
     # ------------------------------------------------------------ dispatch
     def call(self, fn: Node, pos, kw, st: St, fr: Frame, site, expr=None) -> Node:
         op = fn.op
+        sk = kw.get("**")
+        if sk is not None and sk.op == "Phi" and self._phi_kwargs(sk):
+            # f(**d) with d selected by a branch: one call per alternative
+            c, a, b = sk.args
+            base_pc = st.pc
+            s1, s2 = st.copy(), st.copy()
+            s1.pc = base_pc + ((c, True),)
+            s2.pc = base_pc + ((c, False),)
+            outs = []
+            for alt, sx in ((a, s1), (b, s2)):
+                kwx = {k: v for k, v in kw.items() if k != "**"}
+                if alt.op == "Dict":
+                    for d, val in self.dict_items(alt):
+                        kwx[d[1]] = val
+                else:
+                    kwx["**"] = alt
+                try:
+                    outs.append(self.call(fn, pos, kwx, sx, fr, site, expr))
+                except PathEnd:
+                    outs.append(None)
+            v1, v2 = outs
+            if v1 is None and v2 is None:
+                raise PathEnd()
+            if v1 is None or v2 is None:
+                st.assign_from(s2 if v1 is None else s1)
+                return v2 if v1 is None else v1
+            st.assign_from(self.merge2(c, s1, s2, base_pc))
+            return self.phi(c, v1, v2, site)
         if op == "Phi":
             c, a, b = fn.args
             alts = [(x, pol) for x, pol in ((a, True), (b, False))
@@ -439,6 +467,32 @@ class CallMixin:
                 obj.extra["ctor_args"] = (tuple(pos), dict(kw))
         return obj
 
+    def _phi_kwargs(self, n, depth=0):
+        if n.op == "Dict":
+            return all(d[0] == "k" and isinstance(d[1], str) for d in n.attr)
+        return n.op == "Phi" and depth < 3 and self._phi_kwargs(n.args[1], depth + 1) and \
+            self._phi_kwargs(n.args[2], depth + 1)
+
+    def _sorted_const(self, seq, site, depth=0):
+        """sorted(seq) for a sequence / dict whose elements (keys) are constants; distributes over a branch"""
+        if seq.op == "Phi" and depth < 4:
+            a = self._sorted_const(seq.args[1], site, depth + 1)
+            b = self._sorted_const(seq.args[2], site, depth + 1)
+            return None if a is None or b is None else self.phi(seq.args[0], a, b, site)
+        if seq.op == "Const" and isinstance(seq.attr, str):
+            return None
+        items = self.known_items(seq)
+        if items is None:
+            return None
+        ks = [self.const_key(x) for x in items]
+        if any(k is self.NOKEY for k in ks):
+            return None
+        try:
+            order = sorted(range(len(ks)), key=lambda i: ks[i])
+        except TypeError:
+            return None
+        return self.mk("List", [items[i] for i in order], None, site)
+
     def _list_like(self, n, depth=0):
         """n is a list value: a literal, a loop-carried list (its value on loop entry is one) or appends on those"""
         if depth > 8:
@@ -496,12 +550,25 @@ class CallMixin:
                 return self.mk("DictItems", (recv,), None, site)
             if name == "values" and not pos:
                 return self.mk("DictValues", (recv,), None, site)
-            if name == "get" and pos and self.res(pos[0], st).op == "Const":
-                v = self.dict_get(recv, self.res(pos[0], st).attr)
+            if name == "get" and pos and self.const_key(self.res(pos[0], st)) is not self.NOKEY:
+                v = self.dict_get(recv, self.const_key(self.res(pos[0], st)))
                 if v is not None:
                     return v
                 if not any(k[0] in ("**", "n") for k in recv.attr):
                     return pos[1] if len(pos) > 1 else self.const(None)
+            if name == "setdefault" and len(pos) in (1, 2) and not kw and \
+                    self.const_key(self.res(pos[0], st)) is not self.NOKEY and \
+                    not any(k[0] in ("**", "n") for k in recv.attr):
+                key = self.const_key(self.res(pos[0], st))
+                v = self.dict_get(recv, key)
+                if v is not None:
+                    return v
+                dflt = pos[1] if len(pos) > 1 else self.const(None)
+                new = self.dict_set(recv, key, dflt, site)
+                st.cur[recv_id.id] = new
+                self.effect("write", site, st, fr, node=recv_id, roots=self.roots(recv_id),
+                            idx=self.res(pos[0], st), value=dflt, how="method:setdefault", new=new)
+                return dflt
             upd = self._dict_updated(recv, self.res(pos[0], st), site) if name == "update" and len(pos) == 1 \
                 and not kw else None
             if upd is not None:
@@ -532,6 +599,29 @@ class CallMixin:
                     return self.const(vals.index(p.attr), site)
         if recv.op == "Const" and isinstance(recv.attr, str) and name == "format":
             pass
+        if recv.op == "Const" and isinstance(recv.attr, str) and not kw:
+            # pure string methods on constants fold
+            P_ = [self.res(p, st) for p in pos]
+            if name == "split" and len(P_) <= 1 and all(p.op == "Const" and isinstance(p.attr, (str, type(None)))
+                                                        for p in P_):
+                try:
+                    return self.mk("List", [self.const(x, site) for x in recv.attr.split(*[p.attr for p in P_])],
+                                   None, site)
+                except Exception:       # noqa: BLE001
+                    pass
+            if name == "join" and len(P_) == 1:
+                items = self.known_items(P_[0]) if P_[0].op != "Const" else None
+                if items is not None and all(x.op == "Const" and isinstance(x.attr, str) for x in items):
+                    return self.const(recv.attr.join(x.attr for x in items), site)
+            if name in ("lower", "upper", "strip", "lstrip", "rstrip", "title", "capitalize", "casefold") and \
+                    all(p.op == "Const" and isinstance(p.attr, str) for p in P_) and len(P_) <= 1:
+                try:
+                    return self.const(getattr(recv.attr, name)(*[p.attr for p in P_]), site)
+                except Exception:       # noqa: BLE001
+                    pass
+            if name in ("startswith", "endswith") and len(P_) == 1 and P_[0].op == "Const" and \
+                    isinstance(P_[0].attr, (str, tuple)):
+                return self.const(getattr(recv.attr, name)(P_[0].attr), site)
         if recv.op == "NdIter" and name in ("__enter__", "close"):
             return recv
         # dask bag pipeline
@@ -667,10 +757,18 @@ class CallMixin:
         if q in ("builtins.tuple", "builtins.list") and len(P) <= 1:
             if not P:
                 return self.mk("Tuple" if q.endswith("tuple") else "List", (), None, site)
-            if P[0].op in ("Tuple", "List"):
+            if P[0].op in ("Tuple", "List") and not any(a.op == "Starred" for a in P[0].args):
                 return self.mk("Tuple" if q.endswith("tuple") else "List", P[0].args, None, site)
             if P[0].op == "ListComp":
                 return P[0]
+            if P[0].op in ("Dict", "DictKeys", "DictItems", "Const") and not kw:
+                items = self.known_items(P[0]) if not (P[0].op == "Const" and isinstance(P[0].attr, str)) else None
+                if items is not None:
+                    return self.mk("Tuple" if q.endswith("tuple") else "List", items, None, site)
+        if q == "builtins.sorted" and len(P) == 1 and not kw:
+            srt = self._sorted_const(P[0], site)
+            if srt is not None:
+                return srt
         if q == "builtins.dict" and not P:
             return self.mk("Dict", [kw[k] for k in kw], tuple(("k", k) for k in kw), site)
         if q == "builtins.dict" and len(P) == 1 and P[0].op == "Dict" and not kw:
